@@ -465,6 +465,17 @@ impl Model {
                     self.note_assign(glob, &mut reach);
                     self.set_meaning(glob, *t, Meaning::Font(*font));
                 }
+                Op::NewInt { t, id } => {
+                    if self.param(Param::GlobalDefs) == 0 {
+                        text.push_str(&format!("\\newInt{}", t.tex_use()));
+                        self.note_assign(false, &mut reach);
+                        reach.push("newint_variable_defined");
+                        // The variable's storage is modelled as a count register outside the
+                        // real index range, so that assignment, \advance, \let and probes through
+                        // the name work as for a \countdef alias.
+                        self.set_meaning(false, *t, Meaning::RegAlias(RegKind::Count, 40000 + *id));
+                    }
+                }
                 Op::CountDef { g, t, idx } => {
                     text.push_str(&format!("{}\\countdef{}={} ", Self::pre(*g), t.tex(), idx));
                     let glob = self.global(*g, false);
